@@ -24,8 +24,11 @@ def load_known_findings(prop):
     return out
 
 
-def write_evidence(prop, tier, seed, level, coverage, assumptions, wall, violations):
+def write_evidence(prop, tier, seed, level, coverage, assumptions, wall, violations, partial=False):
     d = os.path.join(VERIF, 'evidence')
+    if partial:
+        # a run restricted with --only describes part of the check: never the evidence of record
+        d = os.path.join(VERIF, '.gen', 'evidence-partial')
     if os.path.realpath(GLUE_SRC) != os.path.realpath('/repo'):
         # runs against a patched scratch copy (selftest / tools_mutant.sh) must never overwrite the evidence of /repo
         d = os.path.join(VERIF, '.gen', 'evidence-scratch')
@@ -137,7 +140,7 @@ def check_property(prop, tier, seed, only=None, verbose=True):
     trusted = ['z3 5.1.0', 'CPython 3.12', 'numpy (structural operations)', 'vtools.symnp shim', 'listed stubs']
     coverage['trusted_base'] = trusted
     assumptions = assumptions + ['floats modelled as extended reals (NaN/+-inf exact, rounding not modelled)']
-    write_evidence(prop, tier, seed, level, coverage, assumptions, time.time() - t0, len(confirmed))
+    write_evidence(prop, tier, seed, level, coverage, assumptions, time.time() - t0, len(confirmed), partial=bool(only))
 
     # --- report
     for line in kf_lines:
